@@ -442,8 +442,11 @@ func writeEvidence(o Options, ck *Check, t *ShardResult, wall float64, nviol int
 		"level":       ck.Level,
 		"wall_s":      wall,
 		"violations":  nviol,
-		"assumptions": ck.Assumptions,
 	}
+	as := append([]string{}, ck.Assumptions...)
+	as = append(as, "verdict covers only the executions produced by this run (seeded case list); see coverage.units_observed",
+		"moss built from /repo's working tree with -tags verif; hooks assert nothing and only park/delay/notify")
+	ev["assumptions"] = as
 	samples := t.Samples
 	if len(samples) == 0 {
 		samples = []interface{}{"(no sample recorded)"}
@@ -479,9 +482,6 @@ func writeEvidence(o Options, ck *Check, t *ShardResult, wall float64, nviol int
 		cov["notes"] = nn
 	}
 	ev["coverage"] = cov
-	if ev["assumptions"] == nil {
-		ev["assumptions"] = []string{}
-	}
 	b, _ := json.MarshalIndent(ev, "", " ")
 	dir := filepath.Join(o.VerifDir, "evidence")
 	os.MkdirAll(dir, 0o755)
